@@ -21,13 +21,13 @@ FUNS = {
     "keep-indexed": ("(keep-indexed (fn [i x] (if (= i 1) nil x)) COLL)", "(keep-indexed (fn [i x] (if (= i 1) nil x)))",
                      "[x for i, x in enumerate(xs) if i != 1 and x is not None]", None),
     "map-indexed": ("(map-indexed vector COLL)", "(map-indexed vector)", "[[i, x] for i, x in enumerate(xs)]", None),
-    "take": ("(take n COLL)", "(take n)", "xs[:n]", (0, 3)),
+    "take": ("(take n COLL)", "(take n)", "xs[:n]", (0, 2)),
     "take-while": ("(take-while some? COLL)", "(take-while some?)", "list(itertools.takewhile(lambda x: x is not None, xs))", None),
-    "take-nth": ("(take-nth n COLL)", "(take-nth n)", "xs[::n]", (1, 3)),
-    "drop": ("(drop n COLL)", "(drop n)", "xs[n:]", (0, 3)),
+    "take-nth": ("(take-nth n COLL)", "(take-nth n)", "xs[::n]", (1, 2)),
+    "drop": ("(drop n COLL)", "(drop n)", "xs[n:]", (0, 2)),
     "drop-while": ("(drop-while some? COLL)", "(drop-while some?)", "list(itertools.dropwhile(lambda x: x is not None, xs))", None),
     "interpose": ("(interpose 7 COLL)", "(interpose 7)", "[y for x in xs for y in (7, x)][1:]", None),
-    "partition-all": ("(partition-all n COLL)", "(partition-all n)", "[xs[i:i + n] for i in range(0, len(xs), n)]", (1, 3)),
+    "partition-all": ("(partition-all n COLL)", "(partition-all n)", "[xs[i:i + n] for i in range(0, len(xs), n)]", (1, 2)),
     "partition-by": ("(partition-by nil? COLL)", "(partition-by nil?)",
                      "[list(g) for _, g in itertools.groupby(xs, key=lambda x: x is None)]", None),
     "distinct": ("(distinct COLL)", "(distinct)", "ref_distinct(xs)", None),
@@ -62,6 +62,23 @@ def canon(x):
     return ("c", [canon(e) for e in seq_list(x)])
 def leq(a, b):
     return canon(a) == canon(b)
+TABLE = [None, False, True, 0, 1, 2, kw.keyword("a")]      # the property's element universe {nil, false, 0, 1, 2, :a} plus true
+def E(c):
+    """element for code c, by an explicit chain (one path per value, concrete elements on every path)"""
+    for k in range(len(TABLE)):
+        if c == k:
+            return TABLE[k]
+    return None
+def decode(ln, cs):
+    xs = []
+    for i in range(len(cs)):
+        if i < ln:                 # codes beyond the chosen length are never read (no paths spent on them)
+            xs.append(E(cs[i]))
+    return xs
+def conflated(xs):
+    """does the input contain a boolean together with the number Python considers equal to it?"""
+    cs = [canon(x) for x in xs]
+    return (("b", False) in cs and ("i", 0) in cs) or (("b", True) in cs and ("i", 1) in cs)
 def ref_distinct(xs):
     out = []
     for x in xs:
@@ -77,7 +94,7 @@ def ref_dedupe(xs):
 '''
 
 
-def mk_spec(fnames, form, maxlen, timeout, colltype="vector", n_range=None):
+def mk_spec(fnames, form, maxlen, timeout, colltype="vector", n_range=None, conflate=False):
     """pipeline = composition of FUNS[f] for f in fnames (applied left to right to the data)"""
     needs_n = [f for f in fnames if FUNS[f][3] is not None]
     lo = max([FUNS[f][3][0] for f in needs_n], default=0)
@@ -110,21 +127,28 @@ def REF(xs, n):
 def RUN(xs, n):
     coll = {mk_coll}
     return {call}
-def DIAG(xs, n=0):
-    return ("got", canon(RUN(xs, n)), "expected", canon(REF(list(xs), n)))
+def DIAG(**k):
+    xs = decode(k["ln"], [k[f"c{{i}}"] for i in range({maxlen})])
+    return ("input", canon(xs), "n", k["n"], "got", canon(RUN(xs, k["n"])), "expected", canon(REF(list(xs), k["n"])))
 '''
-    body = '''    expect = canon(REF(list(xs), n))
+    cs = ", ".join(f"c{i}" for i in range(maxlen))
+    skip = ""
+    if "distinct" in fnames:
+        # booleans and the numbers equal to them are conflated by sets (recorded finding, isolated in its own obligation)
+        skip = f"    if conflated(xs) != {bool(conflate)}:\n        return True\n"
+    body = f'''    xs = decode(ln, [{cs}])
+{skip}    expect = canon(REF(list(xs), n))
     got = canon(RUN(xs, n))
     return got == expect'''
-    name = f"{'+'.join(fnames)}/{form}/{colltype}"
-    src = harness("xs: List[Union[None, bool, int]], n: int", body,
-                  pre=[f"len(xs) <= {maxlen}", f"{lo} <= n <= {hi}"], module_code=module,
-                  warm=[([1, None, False, 2][:maxlen], max(lo, 1) if hi >= 1 else lo), ([], lo)])
-    return Spec(name, src, timeout=timeout, bound=f"len(xs) <= {maxlen}, elements nil/bool/int (unbounded), n in {lo}..{hi}",
-                meta={"fns": list(fnames), "form": form, "coll": colltype})
+    name = f"{'+'.join(fnames)}/{form}/{colltype}" + ("/bool-with-equal-number" if conflate else "")
+    sig = "ln: int, " + ", ".join(f"c{i}: int" for i in range(maxlen)) + ", n: int"
+    pre = [f"0 <= ln <= {maxlen}"] + [f"0 <= c{i} < 7" for i in range(maxlen)] + [f"{lo} <= n <= {hi}"]
+    src = harness(sig, body, pre=pre, module_code=module, warm=[])
+    return Spec(name, src, timeout=timeout, bound=f"len(xs) <= {maxlen}, elements from {{nil, false, true, 0, 1, 2, :a}} (every list), n in {lo}..{hi}",
+                meta={"fns": list(fnames), "form": form, "coll": colltype, "conflate": bool(conflate)})
 
 
-EARLY = r'''
+EARLY_COUNTING = r'''
 class Counting:
     """a Python iterator that counts how many elements were pulled"""
     def __init__(self, xs):
@@ -136,6 +160,8 @@ class Counting:
             raise StopIteration
         self.i += 1
         return self.xs[self.i - 1]
+'''
+EARLY = EARLY_COUNTING + r'''
 TAKE_INTO = lisp_eval("(fn [n coll] (into [] (take n) coll))", "verif.c07")
 TAKE_TRANSDUCE = lisp_eval("(fn [n rf coll] (transduce (comp (take n) (map identity)) rf coll))", "verif.c07")
 TAKE_SEQ = lisp_eval("(fn [n coll] (doall (take n coll)))", "verif.c07")
@@ -145,12 +171,50 @@ def DIAG(**k):
 '''
 
 
+SLACK = {"partition-all": "n + 1", "partition-by": "2", "take-nth": "n + 1"}    # elements a stateful step must see beyond the reference's prefix
+
+
+def pulls_spec(f, timeout):
+    """(into [] (comp <f> (take n)) <counting iterator over 10 elements>) must stop pulling input once n outputs exist:
+    pulls <= (shortest prefix on which the reference already yields n outputs) + the step's own look-ahead"""
+    xf = FUNS[f][1]
+    pyref = f"    r = {FUNS[f][2]}\n"
+    module = MODULE + EARLY_COUNTING + f'''
+XF = lisp_eval("(fn [n coll] (into [] (comp {xf} (take n)) coll))", "verif.c07")
+XF_SEQ = lisp_eval("(fn [n coll] (doall (sequence (comp {xf} (take n)) coll)))", "verif.c07")
+DATA = [0, None, 1, False, 2, None, 3, False, 4, None]
+def REF(xs, n):
+{pyref}    return r
+def needed(n):
+    for L in range(len(DATA) + 1):
+        if len(REF(DATA[:L], n)) >= n:
+            return L
+    return len(DATA)
+def DIAG(**k):
+    it = Counting(DATA)
+    got = XF(k["n"], cfn("iterator-seq")(it))
+    return ("n", k["n"], "pulled", it.i, "needed-by-reference", needed(k["n"]), "result", canon(got))
+'''
+    body = f'''    it = Counting(DATA)
+    got = seq_list(XF(n, cfn("iterator-seq")(it)))
+    if canon(got) != canon(REF(list(DATA), n)[:n]):
+        return False
+    if it.i > min(len(DATA), needed(n) + ({SLACK.get(f, "0")})):
+        return False
+    it2 = Counting(DATA)
+    got2 = seq_list(XF_SEQ(n, cfn("iterator-seq")(it2)))
+    return canon(got2) == canon(got)'''
+    src = harness("n: int", body, pre=["1 <= n <= 2"], module_code=module, warm=[])
+    return Spec(f"early-termination/{f}+take/pulls", src, timeout=timeout, bound="a 10-element input behind a counting iterator; n in 1..2",
+                meta={"fns": [f, "take"], "form": "early-pulls", "conflate": False})
+
+
 def early_specs(maxlen, timeout):
     out = []
     body = '''    it = Counting(xs)
     got = seq_list(TAKE_INTO(n, cfn("iterator-seq")(it)))
-    # a reduction stopped by `take` must not consume input beyond what it needs (one look-ahead element allowed)
-    return [x for x in got] == list(xs)[:n] and it.i <= min(len(xs), n + 1)'''
+    # a reduction stopped by `take` must not consume input beyond what it needs ((take 0) still has to be called once)
+    return [x for x in got] == list(xs)[:n] and it.i <= min(len(xs), max(n, 1))'''
     out.append(Spec("early-termination/into-take/pulls", harness("xs: List[int], n: int", body, pre=[f"len(xs) <= {maxlen}", "0 <= n <= 3"],
                                                                  module_code=EARLY, warm=[([1, 2, 3], 1)]),
                     timeout=timeout, bound=f"len(xs) <= {maxlen}, n in 0..3", meta={"fns": ["take"], "form": "early"}))
@@ -185,12 +249,17 @@ def run(rep, tier, seed):
                      "remove-identity", "keep-identity") else f for f in FUNS)) + ["into", "sequence", "transduce", "eduction", "comp", "reduce"],
                      "compiled by the real compiler; run on CrossHair proxies")
     rep.encoded("src/basilisp/lang/runtime.py", ["internal_reduce"], "executed on proxies")
-    maxlen = 2 if quick else 4
-    to = 30 if quick else 150
+    maxlen = 2 if quick else 3
+    to = 45 if quick else 120
     specs = []
     for f in FUNS:
         for form in FORMS:
             specs.append(mk_spec([f], form, maxlen, to))
+            if f == "distinct":
+                specs.append(mk_spec([f], form, maxlen, to, conflate=True))
+    for f in FUNS:
+        if f != "take":
+            specs.append(pulls_spec(f, to))
     rnd = random.Random(seed)
     # early termination is where stateful transducers interact: every function followed by `take` (the terminating step is
     # called again by mapcat / cat / interpose / partition-by after it has returned `reduced`) and `take` followed by every function
@@ -203,13 +272,13 @@ def run(rep, tier, seed):
                 specs.append(mk_spec([f, "take"], "eduction", 3, to, n_range=(1, 2)))
     pairs = [p for p in itertools.permutations(FUNS, 2) if sum(1 for f in p if FUNS[f][3]) <= 1]
     rnd.shuffle(pairs)
-    for p in pairs[:(4 if quick else 120)]:
+    for p in pairs[:(4 if quick else 40)]:
         for form in (["into", "lazy-seq"] if quick else ["into", "lazy-seq", "sequence", "transduce"]):
             specs.append(mk_spec(list(p), form, 2 if quick else 3, to))
     if not quick:
         triples = [t for t in itertools.permutations(FUNS, 3) if sum(1 for f in t if FUNS[f][3]) <= 1]
         rnd.shuffle(triples)
-        for t in triples[:60]:
+        for t in triples[:20]:
             specs.append(mk_spec(list(t), "into", 3, to))
             specs.append(mk_spec(list(t), "sequence", 3, to))
         for f in FUNS:
@@ -217,10 +286,10 @@ def run(rep, tier, seed):
                 specs.append(mk_spec([f], "into", 3, to, ct))
                 specs.append(mk_spec([f], "lazy-seq", 3, to, ct))
     specs += early_specs(maxlen, to)
-    rep.bounds = {"input_length": f"<= {maxlen}", "elements": "nil | bool | int (solver-chosen)", "numeric params": "0..3 / 1..3",
-                  "pipelines": f"all single functions x 5 application forms; {8 if quick else 120} sampled pairs (VERIF_SEED)"
-                               + ("" if quick else "; 60 sampled triples; list/lazy/python-iterable inputs")}
-    rep.outside = ["inputs longer than the bound", "pipeline shapes are enumerated/sampled, not solver-chosen", "keyword elements"]
+    rep.bounds = {"input_length": f"<= {maxlen}", "elements": "every list over {nil, false, true, 0, 1, 2, :a} up to the length bound (solver-chosen codes)", "numeric params": "0..2 / 1..2",
+                  "pipelines": f"all single functions x 5 application forms; {4 if quick else 40} sampled pairs (VERIF_SEED)"
+                               + ("" if quick else "; 20 sampled triples; list/lazy/python-iterable inputs")}
+    rep.outside = ["inputs longer than the bound", "pipeline shapes are enumerated/sampled, not solver-chosen"]
     rep.trusted += ["crosshair-tool 0.0.110 + z3", "18 Python reference definitions in vlib/props/c07.py"]
     rep.assumptions += ["native LazySeq/Cons (Rust) only store and call what they are given (they run concretely under CrossHair)"]
     rep.extra["explanation"] = ("per pipeline, CrossHair explores every path of the real compiled core functions over a symbolic "
@@ -228,6 +297,8 @@ def run(rep, tier, seed):
 
     def matcher(spec, cex):
         m = spec.meta
+        if m.get("conflate"):
+            return {"kind": "distinct-conflates-boolean-with-equal-number"}
         return {"fns": "+".join(m["fns"]), "form": m["form"]}
 
     run_specs(rep, specs, matcher, lambda s, c: f"{s.name} differs from the reference on {c}")
